@@ -1,6 +1,6 @@
 use std::{
     collections::HashMap,
-    path::PathBuf,
+    path::{Component, PathBuf},
     sync::{Arc, Mutex},
     time::{Duration, Instant, SystemTime, UNIX_EPOCH},
 };
@@ -431,7 +431,18 @@ fn files_for_invocation(invocation: &ToolInvocation) -> Result<Option<Vec<PathBu
         "write" => {
             let args: WriteArgs = serde_json::from_value(invocation.args.clone())
                 .map_err(|err| format!("checkpoint args invalid: {err}"))?;
-            Ok(Some(vec![PathBuf::from(args.path)]))
+            // The write tool refuses these paths; the checkpoint store must not see them first.
+            let path = PathBuf::from(args.path);
+            if path.is_absolute() {
+                return Err("absolute paths are not allowed".to_string());
+            }
+            if path
+                .components()
+                .any(|component| matches!(component, Component::ParentDir))
+            {
+                return Err("path escapes workspace root".to_string());
+            }
+            Ok(Some(vec![path]))
         }
         "apply_patch" => {
             let args: ApplyPatchArgs = serde_json::from_value(invocation.args.clone())
